@@ -2,7 +2,7 @@
    submissions do to its state, and the invariants of C03 / C07 over every history. *)
 From Coq Require Import String Sorted.
 From Lospan Require Import Base.Bytes Base.Outcome Model.CMAC Model.FrameTypes Model.Crypto Gen.Consts Model.MacCmd
-  Model.Frame Model.Join Model.Store Model.Server Proof.BitLemmas.
+  Model.Frame Model.Join Model.Store Model.Server Proof.BitLemmas Proof.EncodableProof.
 Open Scope N_scope.
 
 (* operations that never touch the device row *)
@@ -45,6 +45,28 @@ Qed.
 Lemma uds_fail st dev st' e : l_update_device_state st dev = (st', Some e) -> st' = st.
 Proof. unfold l_update_device_state. destruct (ds_row st); [discriminate|]. now intros [= <-]. Qed.
 
+Lemma adv_row st a nf kw st' : l_advance_fup st a nf kw = (st', None) ->
+  exists r, ds_row st = Some r /\ d_fup r <= a /\
+    ds_row st' = Some {| d_eui := d_eui r; d_addr := d_addr r; d_appkey := d_appkey r; d_appskey := d_appskey r;
+                         d_nwkskey := d_nwkskey r; d_appeui := d_appeui r; d_state := d_state r;
+                         d_fup := nf; d_fdn := d_fdn r; d_relaxed := d_relaxed r; d_keywarn := kw; d_nonces := [] |} /\
+    ds_inbox st' = ds_inbox st /\ ds_outbox st' = ds_outbox st /\ ds_nonces st' = ds_nonces st /\ ds_fb st' = ds_fb st.
+Proof.
+  unfold l_advance_fup. destruct (ds_row st) as [r|]; [|discriminate]. destruct (N.leb_spec (d_fup r) a) as [L|L]; [|discriminate].
+  intros [= <-]. exists r. repeat split. exact L.
+Qed.
+Lemma adv_fail st a nf kw st' e : l_advance_fup st a nf kw = (st', Some e) -> st' = st /\ e = SNotFound.
+Proof. unfold l_advance_fup. destruct (ds_row st) as [r|]; [destruct (d_fup r <=? a)|]; intros [= <- <-]; auto. Qed.
+Lemma next_row st st' c : l_next_fdn st = (st', Some c) ->
+  exists r, ds_row st = Some r /\ c = d_fdn r /\
+    ds_row st' = Some {| d_eui := d_eui r; d_addr := d_addr r; d_appkey := d_appkey r; d_appskey := d_appskey r;
+                         d_nwkskey := d_nwkskey r; d_appeui := d_appeui r; d_state := d_state r;
+                         d_fup := d_fup r; d_fdn := (d_fdn r + 1) mod 65536; d_relaxed := d_relaxed r; d_keywarn := d_keywarn r; d_nonces := [] |} /\
+    ds_inbox st' = ds_inbox st /\ ds_outbox st' = ds_outbox st /\ ds_nonces st' = ds_nonces st /\ ds_fb st' = ds_fb st.
+Proof. unfold l_next_fdn. destruct (ds_row st) as [r|]; [|discriminate]. intros [= <- <-]. exists r. repeat split. Qed.
+Lemma next_none st st' : l_next_fdn st = (st', None) -> st' = st /\ ds_row st = None.
+Proof. unfold l_next_fdn. destruct (ds_row st) as [r|]; [discriminate|]. intros [= <-]. auto. Qed.
+
 Section Local.
   Variable E D : list N -> list N -> list N.
 
@@ -74,17 +96,21 @@ Section Local.
   Definition fb_down (st : dstate) : Prop := match ds_fb st with Some fd => down_type (fo_mtype fd) | None => True end.
 
   Lemma pm_counter_spec st dev f n st1 dev1 r :
-    ds_row st = Some r -> d_eui dev = d_eui r -> pm_counter st dev f n = Some (st1, dev1) ->
+    ds_row st = Some r -> d_eui dev = d_eui r -> d_fup dev = d_fup r -> d_fdn dev = d_fdn r ->
+    pm_counter st dev f n = Some (st1, dev1) ->
     exists r1, ds_row st1 = Some r1 /\ same_session r r1 /\ d_fdn dev1 = d_fdn dev /\ d_eui dev1 = d_eui dev /\
       d_nwkskey dev1 = d_nwkskey dev /\ d_appskey dev1 = d_appskey dev /\ d_addr dev1 = d_addr dev /\
       ds_inbox st1 = ds_inbox st /\ ds_outbox st1 = ds_outbox st /\ ds_fb st1 = ds_fb st /\ ds_nonces st1 = ds_nonces st /\
       ((d_fup dev <=? fcnt f) = true /\ d_fup dev1 = (fcnt f + 1) mod 65536 /\ d_fup r1 = d_fup dev1 /\ d_fdn r1 = d_fdn dev \/
        (d_fup dev <=? fcnt f) = false /\ d_fup dev1 = d_fup dev /\ r1 = r).
   Proof.
-    intros Hr He. unfold pm_counter. destruct (d_fup dev <=? fcnt f) eqn:Ec.
-    - destruct (l_update_device_state _ _) as [x [e|]] eqn:U; [discriminate|]. intros [= <- <-].
-      apply uds_row in U. destruct U as (r0 & R0 & R1 & R2 & R3 & R4 & R5). rewrite Hr in R0. injection R0 as <-.
-      eexists. split; [exact R1|]. cbn. repeat split; auto.
+    intros Hr He Hfu Hfd. unfold pm_counter. destruct (d_fup dev <=? fcnt f) eqn:Ec.
+    - destruct (l_advance_fup _ _ _ _) as [x [e|]] eqn:U.
+      + (* the handler's copy agrees with the row, so the store's comparison succeeds too *)
+        exfalso. unfold l_advance_fup in U. rewrite Hr in U. rewrite <- Hfu, Ec in U. discriminate.
+      + intros [= <- <-].
+        apply adv_row in U. destruct U as (r0 & R0 & _ & R1 & R2 & R3 & R4 & R5). rewrite Hr in R0. injection R0 as <-.
+        eexists. split; [exact R1|]. cbn. repeat split; auto.
     - intros [= <- <-]. exists r. split; [exact Hr|]. split; [apply same_session_refl|]. cbn. repeat split; auto.
   Qed.
 
@@ -126,22 +152,27 @@ Section Local.
     destruct (_ <? _)%nat; [discriminate|]. apply encode_length.
   Qed.
 
-  (* the row after the encoder ran for a data frame: nothing changed and nothing sent, or one
-     frame numbered with the snapshot's downlink counter and the stored counter one above it *)
+  (* the block cipher returns blocks: needed only to know that the trial marshalling decides for the encrypted frame *)
+  Hypothesis E_len : forall k b, length (E k b) = 16%nat.
+
+  (* the row after the encoder ran for a data frame, when the handler's copy agrees with the row: nothing changed
+     and nothing sent (no counter is spent on a frame that cannot be marshalled); or one frame numbered with
+     the stored downlink counter, and the stored counter one above it *)
   Lemma encoder_data_row st dev p rx c now r :
-    ds_row st = Some r ->
+    ds_row st = Some r -> d_fup dev = d_fup r -> d_fdn dev = d_fdn r ->
     let res := encoder_data E st dev p rx c now in
     (ds_row (fst res) = Some r /\ snd res = []) \/
     (exists r' buf, ds_row (fst res) = Some r' /\ same_session r r' /\ d_fup r' = d_fup dev /\ d_fdn r' = (d_fdn dev + 1) mod 65536 /\
-       encode_message E (d_nwkskey dev) (d_appskey dev) (downlink_frame dev p) = Ok buf /\
+       encode_message E (d_nwkskey dev) (d_appskey dev) (downlink_frame dev p (d_fdn dev)) = Ok buf /\
        snd res = [ODown {| dl_raw := buf; dl_radio := rx_radio rx; dl_gw := rx_gw rx; dl_rx1delay := 1; dl_eui := d_eui dev |}]).
   Proof.
-    intros Hr. unfold encoder_data. destruct (encode_message _ _ _ _) as [buf| |] eqn:Em; cbn [fst snd]; try (left; now split).
-    destruct (l_update_device_state _ _) as [st2 [e|]] eqn:U; cbn [fst snd].
-    - apply uds_fail in U. subst st2. left. split; [now rewrite row_set_sent_time | reflexivity].
-    - apply uds_row in U. destruct U as (r0 & R0 & R1 & _). rewrite row_set_sent_time, Hr in R0. injection R0 as <-.
-      right. eexists. exists buf. split; [exact R1|]. cbn. repeat split.
-      pose proof (encode_message_length _ _ _ _ Em) as L. destruct (length buf =? 0)%nat eqn:E0; [apply Nat.eqb_eq in E0; lia|reflexivity].
+    intros Hr Hfu Hfd. unfold encoder_data. destruct (encode (downlink_frame dev p 0)) as [b0| |] eqn:T; [|left; now split|left; now split].
+    destruct (l_next_fdn st) as [st1 [cn|]] eqn:U.
+    2:{ apply next_none in U. destruct U as [-> _]. left. now split. }
+    apply next_row in U. destruct U as (r0 & R0 & Hc & R1 & _). rewrite Hr in R0. injection R0 as <-. subst cn. rewrite <- Hfd.
+    destruct (trial_decides E E_len dev p b0 (d_nwkskey dev) (d_appskey dev) (d_fdn dev) T) as [buf Em]. rewrite Em. cbn [fst snd].
+    right. eexists. exists buf. rewrite row_set_sent_time. split; [exact R1|]. cbn. rewrite Hfu, Hfd. repeat split.
+    pose proof (encode_message_length _ _ _ _ Em) as L. destruct (length buf =? 0)%nat eqn:E0; [apply Nat.eqb_eq in E0; lia|reflexivity].
   Qed.
 
   Lemma pm_queue_props st f now :
@@ -198,7 +229,7 @@ Section Local.
     destruct (stale r f) eqn:Es; [apply summary_unchanged; assumption|].
     destruct (pm_counter st (load st r) f n) as [[st1 dev1]|] eqn:Ec.
     2:{ apply summary_unchanged; assumption. }
-    destruct (pm_counter_spec st (load st r) f n st1 dev1 r Hr eq_refl Ec)
+    destruct (pm_counter_spec st (load st r) f n st1 dev1 r Hr eq_refl eq_refl eq_refl Ec)
       as (r1 & R1 & S1 & Fd1 & Eu1 & Kn1 & Ka1 & Ad1 & I1 & O1 & B1 & N1 & Hc).
     cbn [load d_fup d_fdn d_eui d_nwkskey d_appskey d_addr] in *.
     assert (Hup : d_fup r1 = d_fup r \/ ((d_fup r <=? fcnt f) = true /\ d_fup r1 = (fcnt f + 1) mod 65536)).
@@ -246,15 +277,17 @@ Section Local.
     - contradiction.
     - destruct (down_type_not_ja _ G2) as [J1 J2]. rewrite J1, J2.
       assert (R5 : ds_row st5 = Some r1) by congruence.
-      pose proof (encoder_data_row st5 dev1 p rx (snd q) now r1 R5) as Er.
+      assert (Hdd : d_fdn dev1 = d_fdn r1) by congruence.
+      pose proof (encoder_data_row st5 dev1 p rx (snd q) now r1 R5 Hdf Hdd) as Er.
       assert (Ein : ds_inbox (fst (encoder_data E st5 dev1 p rx (snd q) now)) = ds_inbox st5 /\ ds_nonces (fst (encoder_data E st5 dev1 p rx (snd q) now)) = ds_nonces st5 /\ ds_fb (fst (encoder_data E st5 dev1 p rx (snd q) now)) = ds_fb st5).
-      { unfold encoder_data. destruct (encode_message _ _ _ _); [|repeat split|repeat split].
-        destruct (l_update_device_state _ _) as [x [e|]] eqn:U; cbn [fst].
-        - apply uds_fail in U. subst x. repeat split.
-        - apply uds_row in U. destruct U as (r0 & _ & _ & U3 & U4 & U5 & U6). rewrite U3, U5, U6. repeat split. }
+      { unfold encoder_data. destruct (encode (downlink_frame dev1 p 0)); [|repeat split|repeat split].
+        destruct (l_next_fdn st5) as [x [cn|]] eqn:U; cbn [fst].
+        - apply next_row in U. destruct U as (r0 & _ & _ & _ & U3 & U4 & U5 & U6).
+          destruct (encode_message _ _ _ (downlink_frame dev1 p cn)); cbn [fst]; unfold l_set_sent_time, upd_outbox, with_outbox; cbn [ds_inbox ds_nonces ds_fb]; rewrite ?U3, ?U5, ?U6; repeat split.
+        - apply next_none in U. destruct U as [-> _]. repeat split. }
       destruct Ein as (Ein & Eno & Efb).
       assert (Hfbe : fb_down (fst (encoder_data E st5 dev1 p rx (snd q) now))) by (unfold fb_down in *; now rewrite Efb).
-      cbv zeta in Er. destruct Er as [[Er1 Er2]|(r' & buf & Er1 & Er2 & Er3 & Er4 & Er5 & Er6)].
+      cbv zeta in Er. destruct Er as [[Er1 Er2] | (r' & buf & Er1 & Er2 & Er3 & Er4 & Er5 & Er6)].
       + exists r1. cbn [fst snd]. rewrite Er2. cbn [downs flat_map app].
         split; [exact Er1|]. split; [exact S1|]. split; [exact Hfbe|]. split; [congruence|]. split; [intros HH; congruence|].
         split; [exact Hup|]. split; [right; apply Hrec; congruence|]. left. split; [reflexivity|exact Hfd1].
@@ -264,7 +297,7 @@ Section Local.
         split; [rewrite Er3, Hdf; exact Hup|].
         split; [right; destruct (Hrec (fst (encoder_data E st5 dev1 p rx (snd q) now))) as (H1 & H2 & H3); [congruence|];
                 split; [exact H1|]; split; [exact H2|]; intros H; rewrite Er3, Hdf; auto|].
-        right. eexists. exists (downlink_frame dev1 p). split; [reflexivity|]. cbn [dl_eui dl_raw].
+        right. eexists. exists (downlink_frame dev1 p (d_fdn dev1)). split; [reflexivity|]. cbn [dl_eui dl_raw].
         split; [exact Eu1|]. split; [rewrite Er4, Fd1; reflexivity|].
         split; [cbn [downlink_frame fcnt]; exact Fd1|]. split; [cbn [downlink_frame f_devaddr]; now rewrite Ad1|].
         split; [exact G2|]. rewrite <- Kn1, <- Ka1. exact Er5.
